@@ -5,6 +5,7 @@ CONSTANTS
   MaxReplies = 2
   LeakOnSendError = FALSE
   MatchCreation = TRUE
+  SeqCallers = FALSE
   RemoveOnTimeout = TRUE
 CHECK_DEADLOCK FALSE
 ACTION_CONSTRAINT Emit
